@@ -86,3 +86,19 @@ func shortStack() string {
 	}
 	return strings.Join(keep, " | ")
 }
+
+// Zero-size components carry no handle; they reach the simulator through the current run.
+var (
+	// Cur is the context of the run in progress (one run at a time per worker process).
+	Cur *Ctx
+	// ZeroIDs maps the type name of a zero-size component to its instance id.
+	ZeroIDs map[string]string
+)
+
+func zeroHandle(typeName string) *Handle {
+	return &Handle{ID: ZeroIDs[typeName], C: Cur}
+}
+
+// ZeroRun / ZeroClose are the Run / Close bodies of zero-size runners and closers.
+func ZeroRun(typeName string) error   { return zeroHandle(typeName).OnRun(nil) }
+func ZeroClose(typeName string) error { return zeroHandle(typeName).OnClose(nil) }
